@@ -17,6 +17,7 @@ import (
 	"github.com/bluenviron/gortsplib/v5/pkg/liberrors"
 	"math/rand"
 	"net"
+	"os"
 	"sync"
 	"sync/atomic"
 	"time"
@@ -272,6 +273,8 @@ func c01run(sc *c01scn, s *vt.Sink) error {
 
 	var readers []*c01rstate
 	var writeFn func() // set below; used by late readers between DESCRIBE and SETUP
+	begun := make([]int, nk+1)
+	owed := make([]int, nk+1) // highest id written and not refused: what a reader can be waited for
 	mkReader := func(i int, rc c01reader) error {
 		st := &c01rstate{cfg: rc, idx: i + 1}
 		smu.Lock()
@@ -304,6 +307,21 @@ func c01run(sc *c01scn, s *vt.Sink) error {
 				for k := 0; k < 3+sc.Burst/2 && writeFn != nil; k++ {
 					writeFn()
 				}
+				// Secure streams: the keys and the roll-over counter travel with the SETUP response,
+				// and a wrap of the sequence numbers between that moment and the first packet the
+				// joiner receives is RFC 3711's own stated limit (DESIGN.md, C17): every stream
+				// gets past its wrap here, before the SETUPs
+				wrapped := func() bool {
+					for k := 1; k <= nk; k++ {
+						if int(spec.Seq0[k])+begun[k] <= 65536 {
+							return false
+						}
+					}
+					return true
+				}
+				for n := 0; sc.TLS && !sc.Arb && writeFn != nil && !wrapped() && n < 400; n++ {
+					writeFn()
+				}
 			}
 		}
 		rd, err := bd.NewReader(bed.ReaderCfg{Proto: rc.Proto, Tunnel: rc.Tunnel, Timeout: 8 * time.Second,
@@ -312,6 +330,9 @@ func c01run(sc *c01scn, s *vt.Sink) error {
 			return fmt.Errorf("c01: reader %d (%+v, tls=%v): %w", i+1, rc, sc.TLS, err)
 		}
 		st.rd = rd
+		if os.Getenv("VERIF_DEBUG_DECODE") != "" {
+			go func(i int) { fmt.Fprintln(os.Stderr, "reader", i+1, "ended:", rd.C.Wait()) }(i)
+		}
 		readers = append(readers, st)
 		smu.Lock()
 		connecting = nil
@@ -332,7 +353,6 @@ func c01run(sc *c01scn, s *vt.Sink) error {
 		}
 	}()
 
-	begun := make([]int, nk+1)
 	write := func() {
 		k := 1 + rng.Intn(nk)
 		begun[k]++
@@ -341,9 +361,15 @@ func c01run(sc *c01scn, s *vt.Sink) error {
 		tr.Emit("wbeg", "k", k, "id", id)
 		err := bd.Stream.WritePacketRTP(bd.Desc.Medias[streams[k].m], pkt)
 		tr.Emit("wend", "k", k, "id", id)
+		if err == nil {
+			owed[k] = id
+		}
 		if err != nil && sc.TLS && pkt.MarshalSize() > 1472-10 {
 			// too big for a secure stream: refused as a whole
 			tr.Emit("wrefused", "k", k, "id", id)
+			if os.Getenv("VERIF_DEBUG_DECODE") != "" {
+				fmt.Fprintln(os.Stderr, "refused:", id, pkt.MarshalSize(), err)
+			}
 		} else if err != nil {
 			for _, r := range readers {
 				r.lossy.Store(true)
@@ -368,7 +394,7 @@ func c01run(sc *c01scn, s *vt.Sink) error {
 		for time.Now().Before(deadline) {
 			done := true
 			for k := 1; k <= nk; k++ {
-				if r.last[k].Load() < int64(begun[k]) {
+				if r.last[k].Load() < int64(owed[k]) {
 					done = false
 				}
 			}
@@ -381,7 +407,7 @@ func c01run(sc *c01scn, s *vt.Sink) error {
 			time.Sleep(200 * time.Microsecond)
 		}
 		for k := 1; k <= nk; k++ {
-			if r.last[k].Load() < int64(begun[k]) && !r.lossy.Load() {
+			if r.last[k].Load() < int64(owed[k]) && !r.lossy.Load() {
 				r.behind = true
 			}
 		}
